@@ -39,7 +39,9 @@ T == << << 128, 203, 0, 0 >>,                                  \* BYE, no source
         << 129, 202, 0, 2, 0, 0, 0, 1, 1, 1, 65, 0 >>,         \* SDES, well-formed
         << 129, 205, 0, 3, 0, 0, 0, 1, 0, 0, 0, 2, 0, 5, 0, 1 >>,    \* generic NACK
         << 160, 203, 0, 1, 0, 0, 0, 4 >>,                      \* BYE: header and 4 bytes of padding only
-        << 160, 77, 0, 2, 0, 0, 0, 0, 0, 0, 0, 8 >> >>         \* unknown type: header and 8 bytes of padding only
+        << 160, 77, 0, 2, 0, 0, 0, 0, 0, 0, 0, 8 >>,           \* unknown type: header and 8 bytes of padding only
+        << 129, 202, 0, 2, 0, 0, 0, 1, 8, 1, 5, 0 >>,          \* SDES, PRIV item whose prefix overruns the item
+        << 129, 202, 0, 2, 0, 0, 0, 1, 8, 0, 0, 0 >> >>        \* SDES, PRIV item without a prefix length
 
 Tails == << <<>>, << 7 >>, << 1, 2, 3 >>, << 128, 203, 0, 2 >>, << 128, 203, 0, 0, 0 >> >>
 
